@@ -5,8 +5,8 @@
 (*  - TLC checks on every case: Algorithm = Definition (the transcription   *)
 (*    of the code computes the defined neighbourhood), the single-sector    *)
 (*    rule, and - when the side condition of the ball search holds with the *)
-(*    isotropic metric, one sector, nmini <= nmaxi <= number of samples -   *)
-(*    that the transcription of the ball-tree path gives the definition.    *)
+(*    isotropic metric, one sector, nmaxi <= number of samples - that the   *)
+(*    transcription of the ball-tree path gives the definition.             *)
 (*  - With Emit = TRUE the selected cases are printed (JSON) with the        *)
 (*    expected selection; they are concretised and run on the real          *)
 (*    NeighMoving by harness/neigh_run.cpp.                                 *)
@@ -24,12 +24,12 @@ EXTENDS NeighMoving, Json, IOUtils, SequencesExt
 
 CONSTANTS MaxN,      \* maximum number of candidates
           MaxDir,    \* maximum number of placement sectors
-          MaxP,      \* nmini, nmaxi, nsmax range over 0..MaxP
+          PVals,     \* values of nmini, nmaxi (0 = no maximum), nsmax (0 = no limit per sector)
           Salts,     \* set of salts (derived dimensions)
           Rich,      \* TRUE: also multiple reasons of rejection
           Emit,      \* TRUE: print the selected cases
           EmitMod,   \* a case is printed when its mix value is 0 modulo EmitMod ...
-          FullN, FullDir, FullP   \* ... or when it is within these (smaller) bounds
+          FullN, FullDir   \* ... or when it is within these (smaller) bounds
 
 VARIABLES cs,     \* generator view of the candidates: sequence of [adm, dir]
           ndir,
@@ -99,8 +99,8 @@ AddCand == /\ phase = "build" /\ Len(cs) < MaxN
            /\ UNCHANGED <<ndir, phase, case>>
 
 Finish == /\ phase = "build" /\ Len(cs) >= 1 /\ phase' = "done"
-          /\ \E nsect \in {k \in 1..ndir : ndir % k = 0}, nmini \in 0..MaxP, nmaxi \in 0..MaxP,
-                nsmax \in 0..MaxP, salt \in Salts :
+          /\ \E nsect \in {k \in 1..ndir : ndir % k = 0}, nmini \in PVals, nmaxi \in PVals,
+                nsmax \in PVals \cup {0}, salt \in Salts :
                /\ (nsect = 1 => nsmax = 0)              \* nsmax has no meaning with a single sector
                /\ case' = MkCase(nsect, nmini, nmaxi, nsmax, salt)
           /\ UNCHANGED <<cs, ndir>>
@@ -124,11 +124,13 @@ Inv_Core ==
             \* "the nmaxi closest when there is a single sector"
             /\ (case.nsect = 1 /\ Cardinality(Admissible(case)) >= case.nmini /\ case.nmaxi > 0
                   => RangeOf(d) = Closest(case, Admissible(case), case.nmaxi))
-\* ball-tree pre-selection: sufficient conditions under which the transcription of the ball path
-\* yields the definition (isotropic metric: Euclidean order = rank order)
+\* ball-tree pre-selection: with the isotropic metric (Euclidean order = rank order), a single
+\* sector and nmaxi not exceeding the number of samples, the side condition of the property is
+\* sufficient for the transcription of the ball path to yield the definition.  (Beyond these
+\* conditions it is not: see BallCause; the real library is compared in all cases where the side
+\* condition holds and the deviations are gstlearn defects recorded in known/C06.json.)
 Inv_BallSufficient ==
-  IsCase /\ case.nsect = 1 /\ case.nmini <= case.nmaxi /\ case.nmaxi <= NCand(case)
-         /\ BallSide(case, RankKeys(case))
+  IsCase /\ case.nsect = 1 /\ case.nmaxi <= NCand(case) /\ BallSide(case, RankKeys(case))
     => BallAlgorithm(case, RankKeys(case)) = Definition(case)
 
 -----------------------------------------------------------------------------
@@ -158,8 +160,7 @@ Out(c) == LET def == Definition(c) IN
             ball |-> [m \in 1..NMetric |-> BallInfo(c, m, def)],
             cat |-> LET r == Categories(c) IN SetToSeq({k \in DOMAIN r : r[k]}) ]
 
-EmitSel(c) == \/ (NCand(c) <= FullN /\ c.ndir <= FullDir
-                  /\ c.nmini <= FullP /\ c.nmaxi <= FullP /\ c.nsmax <= FullP)
+EmitSel(c) == \/ (NCand(c) <= FullN /\ c.ndir <= FullDir)
               \/ (c.mix \div 2) % EmitMod = 0
 
 Inv_Emit == ~Emit \/ ~IsCase \/ ~EmitSel(case) \/ PrintT(ToJson(Out(case)))
